@@ -17,12 +17,12 @@ def genfam(name, gen, q, t, extra=()):
 PROPS = {
     "C03": dict(fams=[genfam("chunk-exh", "chunk", 1, 1, ["--mode", "exh"]), genfam("chunk-long", "chunk", 1, 1, ["--mode", "long"])],
                 modes=("dev", "release"), design=["MC_Framing"]),
-    "C04": dict(fams=[genfam("fuzz", "fuzz", 1, 1)], modes=("dev", "release"), design=["MC_Phases"]),
+    "C04": dict(fams=[genfam("fuzz", "fuzz", 1, 1), genfam("chunk-long", "chunk", 1, 1, ["--mode", "long"])], modes=("dev", "release"), design=["MC_Phases"]),
     "C05": dict(fams=[walkfam("ops"), walkfam("mixed", "wake", 160, 3000), walkfam("ops", "sweep", 80, 1000), tlcfam("MC_Ops")], design=["MC_Ops"]),
     "C06": dict(fams=[walkfam("ops"), walkfam("quota", "wake", 160, 3000), tlcfam("MC_Ops")], design=["MC_Ops"]),
     "C07": dict(fams=[walkfam("inbound"), walkfam("mixed", "wake", 160, 3000), tlcfam("MC_Inbound")], design=["MC_Inbound"]),
     "C08": dict(fams=[walkfam("inbound"), walkfam("mixed", "wake", 160, 3000), tlcfam("MC_Inbound")], design=["MC_Inbound"]),
-    "C09": dict(fams=[walkfam("inbound", "wake", 320, 5000), genfam("q2seq", "q2seq", 1, 1), tlcfam("MC_Inbound")], design=["MC_Inbound"]),
+    "C09": dict(fams=[walkfam("inbound", "wake", 320, 5000), genfam("q2seq", "q2seq", 1, 1), genfam("resume", "resume", 1, 1), tlcfam("MC_Inbound")], design=["MC_Inbound"]),
     "C10": dict(fams=[walkfam("quota", "wake", 320, 5000), walkfam("ops", "wake", 160, 2000), genfam("quota-fill", "quotafill", 1, 1), tlcfam("MC_Ops")], design=["MC_Ops"]),
     "C11": dict(fams=[genfam("wrap", "wrap", 1, 1), walkfam("ops", "wake", 80, 1000), tlcfam("MC_Ids")], design=["MC_Ids"]),
     "C12": dict(fams=[genfam("size", "size", 1, 1), tlcfam("MC_Ops")], design=["MC_Ops"]),
@@ -243,6 +243,11 @@ def run(prop, tier):
         if v is None:
             continue
         tags = v[0] if isinstance(v[0], list) else [v[0]]
+        if str(key[2]).startswith("chunk") and "C03" not in tags:
+            # the chunking families carry benign traffic that passes with whole-packet reads: any divergence there
+            # is a dependence on how the byte stream was split, whatever clause noticed it first
+            tags = list(tags) + ["C03"]
+            v = [tags] + list(v[1:])
         if "TOOL" in tags:
             tool.append((key, v))
         elif prop not in tags:
